@@ -33,3 +33,23 @@ func VerifInject(nic NIC, src, dst *net.UDPAddr, payload []byte) {
 	c.userData = payload
 	nic.onInboundChunk(c)
 }
+
+// VerifRouterWANAddrs returns the addresses a (child) router holds on its parent's
+// network, i.e. the addresses of its eth0 interface.
+func VerifRouterWANAddrs(r *Router) []net.IP {
+	ifc, err := r.getInterface("eth0")
+	if err != nil {
+		return nil
+	}
+	addrs, _ := ifc.Addrs()
+	var out []net.IP
+	for _, a := range addrs {
+		switch v := a.(type) {
+		case *net.IPNet:
+			out = append(out, v.IP)
+		case *net.IPAddr:
+			out = append(out, v.IP)
+		}
+	}
+	return out
+}
